@@ -41,13 +41,34 @@ def session_digest(case, fresh=False, data_source=None, path=None, shared=None, 
     if fresh:
         clear_caches()
     cfg, mk = case['cfg'], case['market']
+    if case.get('pre_clock'):
+        # somebody listed a clock over the very same instants, written in another time zone, before the session
+        try:
+            q_ = load()
+            list(q_.DailyBusinessDaySimulationEngine(cal.ts6(cfg['start']).tz_convert(case['pre_clock']),
+                                                     cal.ts6(cfg['end']).tz_convert(case['pre_clock']),
+                                                     pre_market=False, post_market=False))
+        except Exception:                                         # noqa
+            pass
     for pcfg in case.get('prelude', []):
         with market.csv_dir(mk) as p0:
             try:
                 session.run_session(pcfg, p0, list(mk))
             except Exception:                                     # noqa  (a prelude may be an invalid configuration)
                 pass
-    if path is not None:
+    if case.get('own_env'):
+        # the session builds its own handler from QSTRADER_CSV_DATA_DIR, which is set to this case's directory just now
+        with market.csv_dir(mk) as p:
+            old = os.environ.get('QSTRADER_CSV_DATA_DIR')
+            os.environ['QSTRADER_CSV_DATA_DIR'] = p
+            try:
+                r = session.run_session(cfg, p, list(mk), own_handler=True)
+            finally:
+                if old is None:
+                    os.environ.pop('QSTRADER_CSV_DATA_DIR', None)
+                else:
+                    os.environ['QSTRADER_CSV_DATA_DIR'] = old
+    elif path is not None:
         r = session.run_session(cfg, path, list(mk), data_source=data_source, shared=shared, data_handler=data_handler)
     else:
         with market.csv_dir(mk) as p:
@@ -63,7 +84,10 @@ def session_digest(case, fresh=False, data_source=None, path=None, shared=None, 
 def worker(hashseed):
     w = _workers.get(hashseed)
     if w is None or w.poll() is not None:
-        env = dict(os.environ, PYTHONHASHSEED=str(hashseed), PYTHONPATH=VERIF, VERIF_REPO=REPO, MPLBACKEND='Agg')
+        # (the worker interpreters start - and import the library - with the data-directory variable pointing somewhere
+        # else; a case that relies on it sets it to its own directory first)
+        env = dict(os.environ, PYTHONHASHSEED=str(hashseed), PYTHONPATH=VERIF, VERIF_REPO=REPO, MPLBACKEND='Agg',
+                   QSTRADER_CSV_DATA_DIR=os.path.join(VERIF, 'vlib'))
         w = subprocess.Popen([sys.executable, '-m', 'vlib.c18worker'], stdin=subprocess.PIPE, stdout=subprocess.PIPE,
                              stderr=subprocess.DEVNULL, env=env, cwd=VERIF, text=True, bufsize=1)
         _workers[hashseed] = w
@@ -193,7 +217,11 @@ def _poke(q, ds, cfg, mk):
     h = q.BacktestDataHandler(None, data_sources=[ds])
     s0, s1 = cal.ts6(cfg['start']), cal.ts6(cfg['end'])
     assets = ['EQ:' + s for s in mk]
-    for f in (lambda: h.get_assets_historical_range_close_price(s0 - pd.Timedelta(days=5), s1, assets, adjusted=True),
+    def other_zone_clock():
+        return list(q.DailyBusinessDaySimulationEngine(s0.tz_convert('America/New_York'), s1.tz_convert('America/New_York'),
+                                                       pre_market=False, post_market=False))
+    for f in (other_zone_clock,
+              lambda: h.get_assets_historical_range_close_price(s0 - pd.Timedelta(days=5), s1, assets, adjusted=True),
               lambda: h.get_assets_historical_range_close_price(s0, s1, assets),
               lambda: ds.get_assets_historical_closes(s0 - pd.Timedelta(days=5), s1, assets),
               lambda: h.get_asset_latest_bid_price(pd.Timestamp(s0.year, s0.month, s0.day, 15, 0), assets[0]),
@@ -265,13 +293,23 @@ def run_case(case):
         cls_two = []
     pre = preludes(cfg)
     for k, hs in enumerate(hash_seeds()):
-        other_d = ask(hs, dict(case, prelude=[pre[k % len(pre)]]))
+        other_d = ask(hs, dict(case, prelude=[pre[k % len(pre)]], pre_clock=[None, 'America/New_York', 'Asia/Tokyo'][k % 3]))
         d = session.first_diff(base, other_d)
         if d or base['error'] != other_d['error']:
             raise Violation('an interpreter with PYTHONHASHSEED=%d that first ran a session differing in one parameter '
                             'group (%s) gives different results than a fresh run under hash seed %s: %s' % (
                                 hs, ['schedule', 'money/sizing', 'alpha'][k % 3], os.environ.get('PYTHONHASHSEED', '?'),
                                 d or (base['error'], other_d['error'])))
+    if cfg.get('adjust', True):
+        # a session that builds its own handler from the data-directory variable, in an interpreter that was started
+        # with the variable pointing elsewhere (default adjustment, every file of the directory: the same data)
+        own_d = ask(hash_seeds()[0], dict(case, own_env=True))
+        d = session.first_diff(base, own_d)
+        if d or base['error'] != own_d['error']:
+            raise Violation('a session building its own handler from QSTRADER_CSV_DATA_DIR (set just before; the '
+                            'interpreter was started with another value) gives different results: %s' % (
+                                d or (base['error'], own_d['error'])))
+        cls_two = cls_two + ['own_handler_from_environment_variable']
     clear_caches()
     cls = list(case.get('labels', [])) + [cfg['alpha']['kind'], cfg['universe']['kind'], cfg['rebalance']] + cls_two
     nf = int(base['nfills'][0])
